@@ -225,7 +225,7 @@ def run(ck):
         src = os.path.join(ck.work, "gen_%d.cxx" % i)
         ck.write("gen_%d.cxx" % i, c17gen.cxx_file(ch))
         jobs.append(("c17p%d" % i, [src, cv]))
-    with ThreadPoolExecutor(max_workers=4) as ex:
+    with ThreadPoolExecutor(max_workers=int(os.environ.get("VERIF_C17_JOBS", "4"))) as ex:
         futs = [(n, ex.submit(ck.cxx, n, s, opt="-O0")) for n, s in jobs]
         bins = {}
         for n, f in futs:
